@@ -225,7 +225,9 @@ class WritableVersion(dns.zone.WritableVersion):
         if self.zone.relativize:
             return name == dns.name.empty
         else:
-            return name == self.zone.origin
+            # Use the version's origin: while a zone file is being loaded the zone's
+            # own origin may not be set yet (it can come from $ORIGIN).
+            return name == self.origin
 
     def _maybe_cow_with_name(
         self, name: dns.name.Name
